@@ -47,7 +47,12 @@ def gen_case(rng, thorough):
     for ci in range(rng.randint(1, 3)):
         calls.append({"k": rng.choice([1, 2, 3, None]), "minlen": rng.choice([1, 2, 2, 3]),
                       "restart": True if ci == 0 else rng.random() < 0.5})
-    return {"s1": s1, "s2": s2, "self": self_cmp, "window": window, "only_triu": only_triu, "penalty": penalty,
+    slices = []
+    for _ in range(3):
+        rb = rng.randint(0, l1); re_ = rng.randint(rb + 1, l1 + 1)
+        cb = rng.randint(0, l2); ce = rng.randint(cb + 1, l2 + 1)
+        slices.append([rb, re_, cb, ce])
+    return {"slices": slices, "s1": s1, "s2": s2, "self": self_cmp, "window": window, "only_triu": only_triu, "penalty": penalty,
             "gamma": gamma, "tau": tau, "delta": delta, "delta_factor": delta_factor, "calls": calls}
 
 
@@ -167,6 +172,13 @@ def run(ctx):
         good = True
         for name in ("py", "py_use_c", "c_full", "c_compact"):
             good = compare_matrix(res, c, name, out[name], model) and good
+        if not good:
+            continue
+        # slices of the compact matrix (what LocalConcurrences.wp_slice returns) against the same block of the model
+        for (rb, re_, cb, ce), sl in zip(c["slices"], out.get("c_compact_slices", [])):
+            sub = [row[cb:ce] for row in model[rb:re_]]
+            res.hit("compact_slice")
+            good = compare_matrix(res, c, "c_compact slice [%d:%d, %d:%d]" % (rb, re_, cb, ce), sl, sub) and good
         if not good:
             continue
         for engine in ("py", "c_full", "c_compact"):
